@@ -27,9 +27,9 @@ class C09(core.Check):
         'cycle:2', 'cycle:3', 'cycle:4', 'use-before-define', 'double:isa+isa', 'double:isa+cli', 'double:isa+define',
         'double:cli+cli', 'double:cli+define', 'double:define+define', 'expands-to:register', 'expands-to:label',
         'expands-to:expression', 'source:isa', 'source:cli', 'source:define', 'unparenthesised-expression-value', 'double:identical-text',
-        'quoted-value-used', 'define-while-muted', 'same-line-text-repeated', 'quoted-value-from:isa', 'quoted-value-from:cli', 'quoted-value-from:define']}
+        'quoted-value-used', 'valueless-symbol-used', 'define-while-muted', 'same-line-text-repeated', 'quoted-value-from:isa', 'quoted-value-from:cli', 'quoted-value-from:define']}
 
-    def build(self, rng, mode, quoted=None, muted=None):
+    def build(self, rng, mode, quoted=None, muted=None, nil=None):
         tags = set()
         bases = list(BASES)
         rng.shuffle(bases)
@@ -133,6 +133,13 @@ class C09(core.Check):
             q_text = rng.choice(['"ok"', '"a b"', '"x"', "'hi there'"]) if q_kind == 'str' else rng.choice(["'B'", "'7'", "'z'"])
             defs.append((q_sym, q_text, None))
             tags.add('expands-to:quoted-' + q_kind)
+        # a symbol defined without a value: every whole-word occurrence is replaced by nothing
+        nil_sym = None
+        spare2 = [b for b in bases[nsym:] if b != reg_sym and b != q_sym]
+        if spare2 and (nil if nil is not None else rng.random() < 0.25) and mode == 'plain':
+            nil_sym = spare2[-1]
+            defs.append((nil_sym, '', None))
+            tags.add('expands-to:nothing')
         # assign sources; definitions made by #define are placed in the program at random points
         body = []
         prog_defs = []
@@ -210,7 +217,7 @@ class C09(core.Check):
             for _ in range(rng.randrange(1, 4)):
                 r = rng.random()
                 if r < 0.5 and all_names:
-                    cand = [n for n in all_names if n != reg_sym and n != q_sym]
+                    cand = [n for n in all_names if n != reg_sym and n != q_sym and n != nil_sym]
                     if cand:
                         atoms.append(rng.choice(cand))
                         continue
@@ -249,6 +256,9 @@ class C09(core.Check):
                 cur_addr += len(b)
                 tags.add('quoted-value-used')
                 continue
+            if nil_sym and nil_sym in table and rng.random() < 0.35:
+                text = rng.choice([f'{nil_sym} {text}', f'{text} {nil_sym}', f'{nil_sym} {text} {nil_sym}'])
+                tags.add('valueless-symbol-used')
             line = f'{kind} {text}'
             out.append(line)
             try:
@@ -295,7 +305,7 @@ class C09(core.Check):
         for i in range(n_pre + n):
             rng = core.rng_for(0 if i < n_pre else seed, self.pid, i)
             mode = ['plain', 'plain', 'cycle', 'double'][i % 4] if i < n_pre else rng.choice(['plain', 'plain', 'plain', 'cycle', 'double'])
-            c = self.build(rng, mode, quoted=(i % 3 == 0) if i < n_pre else None, muted=(i % 5 < 2) if i < n_pre else None)
+            c = self.build(rng, mode, quoted=(i % 3 == 0) if i < n_pre else None, muted=(i % 5 < 2) if i < n_pre else None, nil=(i % 4 == 1) if i < n_pre else None)
             if c:
                 yield c
 
